@@ -368,4 +368,8 @@ theorem valuePostings_sum (v : Commodity) (cur : Option Prices.NPrices) (c : Com
           injection hp with hp; subst hp
           simp only [List.map_cons, List.sum_cons, ih1, ih2, and_true]
           simp [hq]; rfl
+/-- non-vacuity example used in `Properties/C03Bound.lean` -/
+def exampleTrace : List DayStep :=
+  [⟨0, 1/3, [1]⟩, ⟨1/3, 2/3, [2, 0]⟩, ⟨2/3, 123456789/1000000000, [-1]⟩]
+
 end Knut.MTM
